@@ -25,9 +25,10 @@ def Payload.inner : Payload → Prop
   | .fragment .. => False
   | _ => True
 
-theorem inner_selSites (s : SV) (d : QueryDoc) : SelSites s d Payload.inner :=
+theorem inner_selSites (s : SV) (d : QueryDoc) : SelSites s d (fun _ => True) Payload.inner :=
   { value := fun _ _ _ => trivial, directive := fun _ _ _ => trivial, directiveList := fun _ => trivial,
-    field := fun _ _ _ => trivial, inline := fun _ _ => trivial, spread := fun _ _ => trivial }
+    field := fun _ _ _ => trivial, inline := fun _ _ => trivial, spread := fun _ _ _ => trivial,
+    frags := fun _ _ _ _ => trivial }
 
 theorem opEvents_inner {evs : List Event} (h : AllP Payload.inner evs) : opEvents evs = [] := by
   induction evs with
@@ -84,8 +85,8 @@ theorem walkOperation_events (s : SV) (d : QueryDoc) (fuel : Nat) (op : Operatio
           (walkVarDefsB s (some op) op.vars { visited := [], links := l, used := [] }).2 ++
           (walkDirectives s (some op) (opRoot s op.op).1 op.dirs (opRoot s op.op).2
             (walkVarDefsB s (some op) op.vars { visited := [], links := l, used := [] }).1).2 ++ r4.2) :=
-      AllP.append (AllP.append (AllP.append (walkVarDefsA_inner s _ _ _) (walkVarDefsB_all hS _ _ _))
-        (walkDirectives_all hS _ _ _ _ _)) (walkLevel_all hS (some op) fuel _ _ _ r4 h4)
+      AllP.append (AllP.append (AllP.append (walkVarDefsA_inner s _ _ _) (walkVarDefsB_all hS.toValSites _ _ _))
+        (walkDirectives_all hS.toValSites _ _ _ _ _)) (walkLevel_all hS (some op) fuel _ _ _ r4 (fun _ _ => trivial) h4)
     constructor
     · rw [opEvents_append, opEvents_inner hpre]
       rfl
@@ -106,7 +107,7 @@ theorem walkFragment_events (s : SV) (d : QueryDoc) (fuel : Nat) (f : FragmentDe
     have hpre : AllP Payload.inner
         ((walkDirectives s none (s.type? f.typeCond) f.dirs locFragmentDefinition
           { visited := [], links := l, used := [] }).2 ++ r2.2) :=
-      AllP.append (walkDirectives_all hS _ _ _ _ _) (walkLevel_all hS none fuel _ _ _ r2 h2)
+      AllP.append (walkDirectives_all hS.toValSites _ _ _ _ _) (walkLevel_all hS none fuel _ _ _ r2 (fun _ _ => trivial) h2)
     constructor
     · rw [opEvents_append, opEvents_inner hpre]
       rfl
